@@ -45,7 +45,7 @@ var (
 	certs = map[string]*x509.Certificate{}
 )
 
-// Key returns the fixed private key with that name (K1, K2, KA, KS, KG, KX: RSA-2048; K3, KE: P-256).
+// Key returns the fixed private key with that name (K1, K2, KA, KS, KG, KX: RSA-2048; KM: RSA-3072; KL: RSA-4096; K3, KE: P-256).
 func Key(name string) crypto.Signer {
 	keyMu.Lock()
 	defer keyMu.Unlock()
@@ -141,7 +141,7 @@ func (constReader) Read(p []byte) (int, error) {
 
 func subjectOf(keyName string) string {
 	switch keyName {
-	case "KS", "KG", "KX":
+	case "KS", "KG", "KX", "KL", "KM":
 		return "sp.example.com"
 	}
 	return "idp.example.com"
